@@ -374,6 +374,11 @@ func (x *Exec) applyContract(p *Path, site ssa.Instruction, fc *FuncContract, ca
 			x.havocTarget(p, hctx, m, true, fc)
 		}
 	}
+	if (fc.ReadsClock || everything) && !x.clockStable {
+		t := e.fresh("now", "Int")
+		p.assume("(>= " + t + " " + p.clock + ")")
+		p.clock = t
+	}
 	// allocation frontier may move
 	nb := e.fresh("brk", "Int")
 	p.assume("(>= " + nb + " " + p.brk + ")")
@@ -855,7 +860,7 @@ func splitSexp(s string) []string {
 
 func (x *Exec) ifaceContract(cc *ssa.CallCommon) *FuncContract {
 	t := cc.Value.Type()
-	n, ok := t.(*types.Named)
+	n, ok := types.Unalias(t).(*types.Named)
 	if !ok {
 		return nil
 	}
@@ -876,7 +881,7 @@ func (x *Exec) ifaceContract(cc *ssa.CallCommon) *FuncContract {
 
 func (x *Exec) functypeContract(cc *ssa.CallCommon) *FuncContract {
 	t := cc.Value.Type()
-	n, ok := t.(*types.Named)
+	n, ok := types.Unalias(t).(*types.Named)
 	if !ok {
 		return nil
 	}
@@ -894,7 +899,7 @@ func (x *Exec) functypeContract(cc *ssa.CallCommon) *FuncContract {
 
 // isNoopInvoke: logger calls have no effect on verified state.
 func (x *Exec) isNoopInvoke(cc *ssa.CallCommon) bool {
-	n, ok := cc.Value.Type().(*types.Named)
+	n, ok := types.Unalias(cc.Value.Type()).(*types.Named)
 	if !ok {
 		return false
 	}
